@@ -14,6 +14,7 @@ from typing import (
     Dict,
     cast,
     Optional,
+    Set,
 )  # pylint: disable=unused-import
 
 import asttokens.asttokens
@@ -488,6 +489,54 @@ def collect_variable_lookup(
     return variable_lookup
 
 
+def _collect_names_of_code(code: Any) -> Set[str]:
+    """Collect the names used by the code object and by the code objects nested in it (*e.g.*, comprehensions)."""
+    names = set(code.co_names)
+    for const in code.co_consts:
+        if inspect.iscode(const):
+            names.update(_collect_names_of_code(code=const))
+
+    return names
+
+
+def _mangle_private_names(condition: Callable[..., Any], node: ast.AST) -> None:
+    """
+    Rename the private names (``__name``) in the AST of the condition the way Python mangled them at compile time.
+
+    A condition written in the body of a class refers to ``self.__name`` as ``self._SomeClass__name``.
+    The parsed source of the condition carries no information about the enclosing class, but the compiled
+    condition does: its code refers to the mangled names.
+    """
+    code = getattr(condition, "__code__", None)
+    if code is None:
+        return
+
+    names = _collect_names_of_code(code=code)
+
+    mangled = dict()  # type: Dict[str, str]
+    for name in names:
+        # A mangled name is ``_`` + name of the class stripped of the leading underscores + the private name.
+        if len(name) < 2 or name[0] != "_" or name[1] == "_":
+            continue
+
+        i = name.find("__", 1)
+        if i == -1:
+            continue
+
+        private = name[i:]
+        if not private.endswith("__") and private not in names:
+            mangled[private] = name
+
+    if not mangled:
+        return
+
+    for descendant in ast.walk(node):
+        if isinstance(descendant, ast.Attribute) and descendant.attr in mangled:
+            descendant.attr = mangled[descendant.attr]
+        elif isinstance(descendant, ast.Name) and descendant.id in mangled:
+            descendant.id = mangled[descendant.id]
+
+
 def repr_values(condition: Callable[..., bool], lambda_inspection: Optional[ConditionLambdaInspection],
                 resolved_kwargs: Mapping[str, Any], a_repr: reprlib.Repr) -> List[str]:
     """
@@ -544,6 +593,8 @@ def repr_values(condition: Callable[..., bool], lambda_inspection: Optional[Cond
                 condition_kwargs[parameter.name] = parameter.default
 
         variable_lookup = collect_variable_lookup(condition=condition, resolved_kwargs=condition_kwargs)
+
+        _mangle_private_names(condition=condition, node=lambda_inspection.node)
 
         recompute_visitor = icontract._recompute.Visitor(variable_lookup=variable_lookup)
 
